@@ -308,8 +308,9 @@ class OPDFan(Wavefront):
 
         for i, field in enumerate(self.fields):
             for j, wavelength in enumerate(self.wavelengths):
-                wx = self.data[i][j][0][self.num_rays:]
-                wy = self.data[i][j][0][:self.num_rays]
+                # copies: blanking blocked rays must not alter the results
+                wx = np.copy(self.data[i][j][0][self.num_rays:])
+                wy = np.copy(self.data[i][j][0][:self.num_rays])
 
                 intensity_x = self.data[i][j][1][self.num_rays:]
                 intensity_y = self.data[i][j][1][:self.num_rays]
